@@ -9,7 +9,7 @@ import NiftyVerif.Model.TreeShare
 namespace NiftyVerif.C05
 open NiftyVerif.TreeShare NiftyVerif.TreeShare.Ex
 
-variable {V : Type} (add mul : V → V → V) (F : Nat → V → V)
+variable {V : Type} (add mul pr : V → V → V) (F : Nat → V → V)
 
 theorem subst_letFree (k : Nat) (b e : Ex) (hb : letFree b = true) (he : letFree e = true) :
     letFree (subst k b e) = true := by
@@ -18,6 +18,7 @@ theorem subst_letFree (k : Nat) (b e : Ex) (hb : letFree b = true) (he : letFree
   | leaf i a ih => simp_all [subst, letFree]
   | add x y ihx ihy => simp_all [subst, letFree]
   | mul x y ihx ihy => simp_all [subst, letFree]
+  | pair x y ihx ihy => simp_all [subst, letFree]
   | letE j b2 body _ _ => simp [letFree] at he
 
 theorem inlineAll_letFree (e : Ex) : letFree (inlineAll e) = true := by
@@ -26,52 +27,57 @@ theorem inlineAll_letFree (e : Ex) : letFree (inlineAll e) = true := by
   | leaf i a ih => simpa [inlineAll, letFree] using ih
   | add x y ihx ihy => simp [inlineAll, letFree, ihx, ihy]
   | mul x y ihx ihy => simp [inlineAll, letFree, ihx, ihy]
+  | pair x y ihx ihy => simp [inlineAll, letFree, ihx, ihy]
   | letE j b body ihb ihbody => exact subst_letFree j _ _ ihb ihbody
 
 /-- substitution = evaluation in the extended environment (value-level statement of `partial_insert`) -/
 theorem share_sound (k : Nat) (b e : Ex) (he : letFree e = true) (ρ : Nat → V) :
-    eval add mul F (subst k b e) ρ = eval add mul F e (fun j => if j = k then eval add mul F b ρ else ρ j) := by
+    eval add mul pr F (subst k b e) ρ = eval add mul pr F e (fun j => if j = k then eval add mul pr F b ρ else ρ j) := by
   induction e with
   | var j => simp only [subst]; split <;> simp_all [eval]
   | leaf i a ih => simp_all [subst, eval, letFree]
   | add x y ihx ihy => simp_all [subst, eval, letFree]
   | mul x y ihx ihy => simp_all [subst, eval, letFree]
+  | pair x y ihx ihy => simp_all [subst, eval, letFree]
   | letE j b2 body _ _ => simp [letFree] at he
 
 /-- expanding all inserted keys does not change the value, in any value domain, at any input -/
-theorem inlineAll_sound (e : Ex) (ρ : Nat → V) : eval add mul F (inlineAll e) ρ = eval add mul F e ρ := by
+theorem inlineAll_sound (e : Ex) (ρ : Nat → V) : eval add mul pr F (inlineAll e) ρ = eval add mul pr F e ρ := by
   induction e generalizing ρ with
   | var j => rfl
   | leaf i a ih => simp [inlineAll, eval, ih]
   | add x y ihx ihy => simp [inlineAll, eval, ihx, ihy]
   | mul x y ihx ihy => simp [inlineAll, eval, ihx, ihy]
+  | pair x y ihx ihy => simp [inlineAll, eval, ihx, ihy]
   | letE j b body ihb ihbody =>
     simp only [inlineAll, eval]
-    rw [share_sound add mul F j _ _ (inlineAll_letFree body), ihbody, ihb]
+    rw [share_sound add mul pr F j _ _ (inlineAll_letFree body), ihbody, ihb]
 
 /-- **soundness of the checker (values)**: a positive verdict means the optimised tree `e'` and the original `e` agree
     for every interpretation of the leaves, of `+` and `*`, and every input -/
 theorem isSharingOf_sound (e e' : Ex) (h : isSharingOf e e' = true) (ρ : Nat → V) :
-    eval add mul F e' ρ = eval add mul F e ρ := by
+    eval add mul pr F e' ρ = eval add mul pr F e ρ := by
   simp only [isSharingOf, Bool.and_eq_true, decide_eq_true_eq] at h
   rw [← h.1.1]
-  exact (inlineAll_sound add mul F e' ρ).symm
+  exact (inlineAll_sound add mul pr F e' ρ).symm
 
 /-! #### Jacobians: evaluation over dual numbers `(value, directional derivative)` -/
 
 /-- dual numbers over a value domain with the sum and product rules -/
 def dadd {K : Type} (a : K → K → K) (x y : K × K) : K × K := (a x.1 y.1, a x.2 y.2)
 def dmul {K : Type} (a m : K → K → K) (x y : K × K) : K × K := (m x.1 y.1, a (m x.1 y.2) (m x.2 y.1))
+/-- tuples of dual numbers -/
+def dpair {K : Type} (p : K → K → K) (x y : K × K) : K × K := (p x.1 y.1, p x.2 y.2)
 /-- a leaf `f` with derivative `f'` (chain rule) -/
 def dleaf {K : Type} (m : K → K → K) (f f' : Nat → K → K) (i : Nat) (x : K × K) : K × K := (f i x.1, m (f' i x.1) x.2)
 
 /-- **soundness of the checker (Jacobians)**: value and directional derivative (forward-mode push-forward through the
     tree, which is how `Linearization` computes Jacobians) agree at every input and in every direction -/
-theorem isSharingOf_jac {K : Type} (a m : K → K → K) (f f' : Nat → K → K) (e e' : Ex) (h : isSharingOf e e' = true)
+theorem isSharingOf_jac {K : Type} (a m p : K → K → K) (f f' : Nat → K → K) (e e' : Ex) (h : isSharingOf e e' = true)
     (x dx : Nat → K) :
-    eval (dadd a) (dmul a m) (dleaf m f f') e' (fun k => (x k, dx k)) =
-    eval (dadd a) (dmul a m) (dleaf m f f') e (fun k => (x k, dx k)) :=
-  isSharingOf_sound _ _ _ e e' h _
+    eval (dadd a) (dmul a m) (dpair p) (dleaf m f f') e' (fun k => (x k, dx k)) =
+    eval (dadd a) (dmul a m) (dpair p) (dleaf m f f') e (fun k => (x k, dx k)) :=
+  isSharingOf_sound _ _ _ _ e e' h _
 
 /-! #### domain -/
 
@@ -117,6 +123,20 @@ theorem mem_keys_subst (k : Nat) (b e : Ex) (he : letFree e = true) (j : Nat) :
       · exact Or.inr (Or.inl ⟨h1, h2⟩)
       · exact Or.inl (Or.inr ⟨h1, h2⟩)
       · exact Or.inr (Or.inr ⟨h1, h2⟩)
+  | pair x y ihx ihy =>
+    simp only [letFree, Bool.and_eq_true] at he
+    simp only [subst, keys, List.mem_append, ihx he.1, ihy he.2]
+    constructor
+    · rintro ((h | h) | (h | h))
+      · exact Or.inl ⟨Or.inl h.1, h.2⟩
+      · exact Or.inr ⟨Or.inl h.1, h.2⟩
+      · exact Or.inl ⟨Or.inr h.1, h.2⟩
+      · exact Or.inr ⟨Or.inr h.1, h.2⟩
+    · rintro (⟨h1 | h1, h2⟩ | ⟨h1 | h1, h2⟩)
+      · exact Or.inl (Or.inl ⟨h1, h2⟩)
+      · exact Or.inr (Or.inl ⟨h1, h2⟩)
+      · exact Or.inl (Or.inr ⟨h1, h2⟩)
+      · exact Or.inr (Or.inr ⟨h1, h2⟩)
   | letE i b2 body _ _ => simp [letFree] at he
 
 theorem keys_inlineAll (e : Ex) (hu : letsUsed e = true) (j : Nat) : j ∈ keys (inlineAll e) ↔ j ∈ keys e := by
@@ -125,6 +145,7 @@ theorem keys_inlineAll (e : Ex) (hu : letsUsed e = true) (j : Nat) : j ∈ keys 
   | leaf i a ih => simp_all [inlineAll, keys, letsUsed]
   | add x y ihx ihy => simp_all [inlineAll, keys, letsUsed]
   | mul x y ihx ihy => simp_all [inlineAll, keys, letsUsed]
+  | pair x y ihx ihy => simp_all [inlineAll, keys, letsUsed]
   | letE k b body ihb ihbody =>
     simp only [letsUsed, Bool.and_eq_true, List.contains_iff_mem] at hu
     obtain ⟨⟨hb, hbody⟩, hk⟩ := hu
@@ -156,5 +177,136 @@ example : isSharingOf
     (.add (.mul (.leaf 0 (.var 0)) (.leaf 1 (.var 1))) (.mul (.leaf 0 (.var 0)) (.leaf 1 (.var 1))))
     (.letE 7 (.leaf 1 (.var 1)) (.add (.var 7) (.var 7))) = false := by
   decide
+
+
+/-! #### the sharing decision: what is shared are syntactically equal sub-expressions -/
+
+/-- replacing every occurrence of a sub-expression `sub` by a fresh key and substituting `sub` back is the identity: the
+    occurrences the optimiser replaces by one inserted key are syntactically the same expression -/
+theorem share_inverse (sub : Ex) (k : Nat) (e : Ex) (he : letFree e = true) (hk : k ∉ keys e) :
+    subst k sub (shareAll sub k e) = e := by
+  induction e with
+  | var j =>
+    simp only [shareAll]
+    split
+    · rename_i h; simp [subst, h]
+    · have : j ≠ k := by
+        intro h; apply hk; simp [keys, h]
+      simp [subst, this]
+  | leaf i a ih =>
+    simp only [shareAll]
+    split
+    · rename_i h; simp [subst, h]
+    · simp only [subst]; rw [ih (by simpa [letFree] using he) (by simpa [keys] using hk)]
+  | add x y ihx ihy =>
+    simp only [letFree, Bool.and_eq_true] at he
+    simp only [keys, List.mem_append, not_or] at hk
+    simp only [shareAll]
+    split
+    · rename_i h; simp [subst, h]
+    · simp only [subst]; rw [ihx he.1 hk.1, ihy he.2 hk.2]
+  | mul x y ihx ihy =>
+    simp only [letFree, Bool.and_eq_true] at he
+    simp only [keys, List.mem_append, not_or] at hk
+    simp only [shareAll]
+    split
+    · rename_i h; simp [subst, h]
+    · simp only [subst]; rw [ihx he.1 hk.1, ihy he.2 hk.2]
+  | pair x y ihx ihy =>
+    simp only [letFree, Bool.and_eq_true] at he
+    simp only [keys, List.mem_append, not_or] at hk
+    simp only [shareAll]
+    split
+    · rename_i h; simp [subst, h]
+    · simp only [subst]; rw [ihx he.1 hk.1, ihy he.2 hk.2]
+  | letE j b body _ _ => simp [letFree] at he
+
+theorem shareAll_letFree (sub : Ex) (k : Nat) (e : Ex) (he : letFree e = true) : letFree (shareAll sub k e) = true := by
+  induction e with
+  | var j => simp only [shareAll]; split <;> simp [letFree]
+  | leaf i a ih => simp only [shareAll]; split <;> simp_all [letFree]
+  | add x y ihx ihy => simp only [shareAll]; split <;> simp_all [letFree]
+  | mul x y ihx ihy => simp only [shareAll]; split <;> simp_all [letFree]
+  | pair x y ihx ihy => simp only [shareAll]; split <;> simp_all [letFree]
+  | letE j b body _ _ => simp [letFree] at he
+
+theorem mem_keys_shareAll (sub : Ex) (k : Nat) (e : Ex) (he : letFree e = true) (ho : occurs sub e = true) :
+    k ∈ keys (shareAll sub k e) := by
+  induction e with
+  | var j => simp only [occurs, decide_eq_true_eq] at ho; simp [shareAll, ho, keys]
+  | leaf i a ih =>
+    simp only [shareAll]
+    split
+    · simp [keys]
+    · rename_i h
+      simp only [occurs, Bool.or_eq_true, decide_eq_true_eq] at ho
+      simp only [keys]
+      exact ih (by simpa [letFree] using he) (ho.resolve_left h)
+  | add x y ihx ihy =>
+    simp only [letFree, Bool.and_eq_true] at he
+    simp only [shareAll]
+    split
+    · simp [keys]
+    · rename_i h
+      simp only [occurs, Bool.or_eq_true, decide_eq_true_eq] at ho
+      simp only [keys, List.mem_append]
+      rcases ho with (ho | ho) | ho
+      · exact absurd ho h
+      · exact Or.inl (ihx he.1 ho)
+      · exact Or.inr (ihy he.2 ho)
+  | mul x y ihx ihy =>
+    simp only [letFree, Bool.and_eq_true] at he
+    simp only [shareAll]
+    split
+    · simp [keys]
+    · rename_i h
+      simp only [occurs, Bool.or_eq_true, decide_eq_true_eq] at ho
+      simp only [keys, List.mem_append]
+      rcases ho with (ho | ho) | ho
+      · exact absurd ho h
+      · exact Or.inl (ihx he.1 ho)
+      · exact Or.inr (ihy he.2 ho)
+  | pair x y ihx ihy =>
+    simp only [letFree, Bool.and_eq_true] at he
+    simp only [shareAll]
+    split
+    · simp [keys]
+    · rename_i h
+      simp only [occurs, Bool.or_eq_true, decide_eq_true_eq] at ho
+      simp only [keys, List.mem_append]
+      rcases ho with (ho | ho) | ho
+      · exact absurd ho h
+      · exact Or.inl (ihx he.1 ho)
+      · exact Or.inr (ihy he.2 ho)
+  | letE j b body _ _ => simp [letFree] at he
+
+/-- **completeness of the checker for genuine sharing steps**: sharing a let-free sub-expression that occurs in `e` under a fresh
+    key is accepted — so a rejection means the optimiser did something other than sharing equal sub-expressions -/
+theorem share_step_accepted (sub : Ex) (k : Nat) (e : Ex) (he : letFree e = true) (hs : letFree sub = true)
+    (hk : k ∉ keys e) (ho : occurs sub e = true) : isSharingOf e (letE k sub (shareAll sub k e)) = true := by
+  have hlf := shareAll_letFree sub k e he
+  have h1 : inlineAll (letE k sub (shareAll sub k e)) = e := by
+    simp only [inlineAll]
+    rw [inlineAll_of_letFree sub hs, inlineAll_of_letFree _ hlf, share_inverse sub k e he hk]
+  simp only [isSharingOf, h1, decide_true, Bool.true_and, Bool.and_eq_true, he, and_true]
+  simp only [letsUsed, Bool.and_eq_true, List.contains_iff_mem]
+  exact ⟨⟨letsUsed_of_letFree sub hs, letsUsed_of_letFree _ hlf⟩, mem_keys_shareAll sub k e he ho⟩
+where
+  inlineAll_of_letFree (e : Ex) (h : letFree e = true) : inlineAll e = e := by
+    induction e with
+    | var j => rfl
+    | leaf i a ih => simp [inlineAll, ih (by simpa [letFree] using h)]
+    | add x y ihx ihy => simp only [letFree, Bool.and_eq_true] at h; simp [inlineAll, ihx h.1, ihy h.2]
+    | mul x y ihx ihy => simp only [letFree, Bool.and_eq_true] at h; simp [inlineAll, ihx h.1, ihy h.2]
+    | pair x y ihx ihy => simp only [letFree, Bool.and_eq_true] at h; simp [inlineAll, ihx h.1, ihy h.2]
+    | letE j b body _ _ => simp [letFree] at h
+  letsUsed_of_letFree (e : Ex) (h : letFree e = true) : letsUsed e = true := by
+    induction e with
+    | var j => rfl
+    | leaf i a ih => simpa [letsUsed] using ih (by simpa [letFree] using h)
+    | add x y ihx ihy => simp only [letFree, Bool.and_eq_true] at h; simp [letsUsed, ihx h.1, ihy h.2]
+    | mul x y ihx ihy => simp only [letFree, Bool.and_eq_true] at h; simp [letsUsed, ihx h.1, ihy h.2]
+    | pair x y ihx ihy => simp only [letFree, Bool.and_eq_true] at h; simp [letsUsed, ihx h.1, ihy h.2]
+    | letE j b body _ _ => simp [letFree] at h
 
 end NiftyVerif.C05
